@@ -277,3 +277,8 @@ Qed.
 Theorem x_copy_bytes_uspace_ok : forall fuel nbytes rpos wpos ans,
   x_copy_bytes_uspace fuel nbytes rpos wpos ans = copy_bytes_uspace fuel nbytes rpos wpos 0 ans.
 Proof. intros. unfold x_copy_bytes_uspace. rewrite x_copy_bytes_uspace_loop_ok. apply u_app_nil. Qed.
+
+(* the block fallback reads and writes at explicit offsets (pread/pwrite): concurrent block jobs of one file
+   share the two descriptors, so nothing may go through their cursors *)
+Theorem x_positional_io_ok : x_read_bytes_steps = [50] /\ x_write_bytes_steps = [51].
+Proof. split; reflexivity. Qed.
